@@ -133,7 +133,7 @@ CONSTANTS
  MaxLen = %d
  Maxima = {1, 2, 5, 9, 10, 14, 22}
  MaxStanzas = %d
- OtherKinds = {"X25519", "grease", "rand-grease"}
+ OtherKinds = {"X25519", "grease", "rand-grease", "scrypt-copy"}
  Specials <- SpecialStrings
 INVARIANT Emit
 CHECK_DEADLOCK FALSE
@@ -171,10 +171,26 @@ CHECK_DEADLOCK FALSE
 		fk := make([]byte, 16)
 		rand.Read(fk)
 		var ss []*format.Stanza
+		var the *format.Stanza
+		theUsed := false
 		for _, k := range c.Layout {
 			switch k {
 			case "scrypt":
-				ss = append(ss, forgeScrypt(t, fk, actual, wf))
+				if the == nil {
+					the = forgeScrypt(t, fk, actual, wf)
+					ss = append(ss, the)
+				} else if !theUsed {
+					ss = append(ss, the)
+				} else {
+					ss = append(ss, forgeScrypt(t, fk, actual, wf))
+				}
+				theUsed = true
+			case "scrypt-copy": // byte for byte the header's (first) passphrase stanza, wherever that one stands
+				if the == nil {
+					the = forgeScrypt(t, fk, actual, wf)
+				}
+				cp := *the
+				ss = append(ss, &cp)
 			case "X25519":
 				s, _ := x1.Recipient().Wrap(fk)
 				ss = append(ss, (*format.Stanza)(s[0]))
